@@ -2,6 +2,9 @@ import Gallia.Proofs.Lemmas.SessionScan
 import Gallia.Proofs.Lemmas.SessionScanBfs
 import Gallia.Proofs.Lemmas.SessionScanReport
 import Gallia.Proofs.Lemmas.SessionScanSorted
+import Gallia.Proofs.Lemmas.SessionScanSim
+import Gallia.Proofs.Lemmas.SessionScanFam
+import Gallia.Proofs.Lemmas.SessionScanSWire
 import Gallia.Gen.C09
 /-
   C09 — the session scan reports exactly the sessions reachable within the depth limit.
@@ -263,5 +266,159 @@ example : result (scan (hookCfg true) hookEcu) = [1, 2, 3] := by decide +kernel
 /-- and that is what `scan_exact` says, with the edge 1 -> 2 of the effective graph coming from the hook -/
 example : edge (hookCfg true) hookEcu 1 2 = .pos ∧ edge (hookCfg false) hookEcu 1 2 = .nrc NRC_CNC := by decide
 example : DefaultReentry (edge (hookCfg true) hookEcu) := by intro s; simp [edge, hookEcu, hookCfg]
+
+/-! ## Stateful ECUs (Model/SessionScanS.lean)
+
+  `scanS c L e`: the same scanner against an arbitrary stateful ECU (`Link σ`: any state, replies may depend on the
+  whole history and on the time since the previous request), every transmission a step of the ECU. -/
+
+section stateful
+variable {σ : Type}
+
+/-- **Simulation.** On every ECU that has a session graph (`GraphLike`: reply to `10 u` and session afterwards depend
+    on the current session only, as the graph `E` says; ECUReset / pings as `E.rst` / `E.boot` say) and starts in the
+    default session, the stateful scan IS the graph scan: same request sequence, same found / positive / negative /
+    searched lists, same exit. -/
+theorem scan_simulates_graph (c : CfgS) (L : Link σ) (E : Ecu) (Inv : σ → Prop) (G : GraphLike L c E Inv) (e : σ)
+    (he : Inv e) (h1 : L.sessionOf e = 1) : (scanS c L e).toSt L = scan c.toCfg E :=
+  (scanS_sim G e he h1).1
+
+/-- soundness for every GraphLike stateful ECU -/
+theorem scan_sound_graphlike (c : CfgS) (L : Link σ) (E : Ecu) (Inv : σ → Prop) (G : GraphLike L c E Inv) (e : σ)
+    (he : Inv e) (h1 : L.sessionOf e = 1) (s : Sess) (st : List Sess) (hab : (scanS c L e).aborted = false)
+    (h : (s, st) ∈ (scanS c L e).pos) :
+    st.head? = some 1 ∧ ValidPath E.g (st ++ [s]) ∧ st.length ≤ c.depth ∧ ∀ x ∈ st.tail ++ [s], x ∉ c.skip := by
+  have hsim := scan_simulates_graph c L E Inv G e he h1
+  have hab2 : (scan c.toCfg E).aborted = false := by rw [← hsim]; exact hab
+  have hp : (s, st) ∈ (scan c.toCfg E).pos := by rw [← hsim]; exact h
+  have := scan_sound c.toCfg E s st hab2 hp
+  rw [edge_base_class c.toCfg E G.base.1] at this
+  exact this
+
+/-- completeness for every GraphLike stateful ECU -/
+theorem scan_complete_graphlike (c : CfgS) (L : Link σ) (E : Ecu) (Inv : σ → Prop) (G : GraphLike L c E Inv) (e : σ)
+    (he : Inv e) (h1 : L.sessionOf e = 1) (s : Sess) (hab : (scanS c L e).aborted = false)
+    (h : ReachWithin E.g c.skip s c.depth) : s ∈ result ((scanS c L e).toSt L) := by
+  rw [scan_simulates_graph c L E Inv G e he h1]
+  have hab2 : (scan c.toCfg E).aborted = false := by
+    rw [← scan_simulates_graph c L E Inv G e he h1]; exact hab
+  exact scan_complete c.toCfg E s hab2 (by rw [edge_base_class c.toCfg E G.base.1]; exact h)
+
+/-- **exactly the reachable sessions**, as a list, for every GraphLike stateful ECU in which every session can
+    re-enter the default session -/
+theorem scan_exact_graphlike (c : CfgS) (L : Link σ) (E : Ecu) (Inv : σ → Prop) (G : GraphLike L c E Inv) (e : σ)
+    (he : Inv e) (h1 : L.sessionOf e = 1) (hd : DefaultReentry E.g) :
+    result ((scanS c L e).toSt L) = reachSet E.g c.skip c.depth := by
+  rw [scan_simulates_graph c L E Inv G e he h1]
+  have := result_is_reachSet c.toCfg E (by rw [edge_base_class c.toCfg E G.base.1]; exact hd)
+  rw [edge_base_class c.toCfg E G.base.1] at this
+  exact this
+
+/-- the graph ECU of the first part, run as a stateful oracle (one step per transmission, boot phase counted down ping
+    by ping), is GraphLike for its own graph - so `scan` is what `scanS` computes on it -/
+theorem graph_oracle_is_graphlike (c : CfgS) (E : Ecu) (hb : c.preHook = [] ∧ c.postHook = [])
+    (hp : ∀ p, E.boot p + 1 ≤ c.pingBudget) :
+    (scanS c (linkOf (graphOracle c.toCfg E)) {}).toSt (linkOf (graphOracle c.toCfg E)) = scan c.toCfg E :=
+  scan_simulates_graph c _ E _ (graphOracle_graphLike c E hb hp) {} ⟨rfl, rfl⟩ rfl
+
+/-- **(b) Security access in front of transitions.**  The scan never unlocks the ECU, so it reports exactly the
+    sessions reachable within the depth limit WITHOUT the locked transitions (they show up as identified but not
+    entered, NRC 0x33). -/
+theorem scan_exact_locked_subgraph (c : CfgS) (E : Ecu) (locked : Sess → Sess → Bool)
+    (hb : c.preHook = [] ∧ c.postHook = []) (hp : 1 ≤ c.pingBudget)
+    (hd : DefaultReentry (lockedGraph E locked).g) :
+    result ((scanS c (linkOf (lockedOracle E locked)) (1, false)).toSt (linkOf (lockedOracle E locked))) =
+      reachSet (lockedGraph E locked).g c.skip c.depth :=
+  scan_exact_graphlike c _ _ _ (lockedOracle_graphLike c E locked hb hp) (1, false) rfl rfl hd
+
+/-- **(c) ResponsePending is transparent.**  An ECU that announces real answers with ResponsePending frames gets the
+    same scan - same requests, same report, same final ECU state - as the ECU that answers at once. -/
+theorem scan_pending_transparent (c : CfgS) (O : Oracle σ) (pend : σ → Wire → Nat) (h0 : NoPending O)
+    (h : PendingClean O pend) (e : σ) : scanS c (linkOf (withPending O pend)) e = scanS c (linkOf O) e := by
+  rw [linkOf_withPending O pend h0 h]
+
+/-- **(2) Wire alphabet, for ANY ECU.**  Whatever the ECU does, the scan sends nothing but: `10 s` probes to
+    non-skipped sessions 1..0x7f; stack-recovery `10 s` to the default session or a non-skipped session; `11 level` and
+    pings only with `--reset level`; hook requests only with `--with-hooks`, and only those of the ECU class. -/
+theorem requests_only_dsc_reset_ping_hooks (c : CfgS) (L : Link σ) (e : σ) (r : Req) (h : r ∈ (scanS c L e).log) :
+    (r.kind = .probe → r.target ∈ sessions ∧ r.target ∉ c.skip) ∧
+    (r.kind = .recover → r.target = 1 ∨ (r.target ∈ sessions ∧ r.target ∉ c.skip)) ∧
+    (r.kind = .reset → wantsReset c.toCfg = some r.target) ∧
+    (r.kind = .ping → (wantsReset c.toCfg).isSome) ∧
+    (r.kind = .hook → c.hooks = true ∧ r.target ∈ c.preHook ++ c.postHook) :=
+  scanS_wire c L e r h
+
+/-- **Skip list, for ANY ECU**: no `10 s` for a skipped session, except `10 01` during stack recovery -/
+theorem skip_not_requested_any (c : CfgS) (L : Link σ) (e : σ) (r : Req) (h : r ∈ (scanS c L e).log)
+    (hk : r.kind = .probe ∨ r.kind = .recover) (hs : r.target ∈ c.skip) : r.kind = .recover ∧ r.target = 1 := by
+  obtain ⟨h1, h2, _⟩ := scanS_wire c L e r h
+  rcases hk with hk | hk
+  · exact absurd hs (h1 hk).2
+  · rcases h2 hk with h3 | h3
+    · exact ⟨hk, h3⟩
+    · exact absurd hs h3.2
+
+/-- **Work bound, for ANY ECU** (cycles, lies, timeouts ...): level `j` expands at most `127^(j-1)` stacks of `j`
+    sessions, each with 127 probes of at most `perProbe c j` transmissions (reset + pings + recovery of the stack + probe,
+    each `set_session` at most `(max_retry+1) * (2 + hook requests)`): `scanBound c depth 1 1 = Σ_{j=1..depth}
+    127^(j-1) * 127 * perProbe c j`. -/
+theorem requests_bounded (c : CfgS) (L : Link σ) (e : σ) : (scanS c L e).log.length ≤ scanBound c c.depth 1 1 :=
+  scanS_log_le c L e
+
+end stateful
+
+/-- **(3) Database side.**  The rows written to `session_transition` are, in this order: one row (session, stack) per
+    reported session - the sessions of these rows ARE `SessionsScanner.result`, strictly ascending, each stack one with
+    which the session was entered - followed by one row per session that was identified but never entered (some NRC
+    other than 0x12 / 0x7e, session not among the reported ones), with the stack it was refused from.  An aborted scan
+    writes nothing. -/
+theorem rows_match_report (st : St) :
+    (transitions st).map (·.1) = result st ∧ (result st).Pairwise (· < ·) ∧
+    (∀ row ∈ transitions st, row ∈ st.pos) ∧
+    (∀ row ∈ negReported st, row ∈ st.neg ∧ row.1 ∉ result st ∧ row.2.2 ≠ NRC_SFNSIAS) ∧
+    (st.aborted = true → transitions st = [] ∧ negReported st = []) := by
+  refine ⟨rfl, result_strict st, fun row h => (mem_transitions h).2, ?_, fun h => by simp [transitions, negReported, h]⟩
+  intro row h
+  unfold negReported at h
+  split at h
+  · cases h
+  · have h2 := firstOfRuns_sub _ _ _ _ h
+    rw [List.mem_filter] at h2
+    obtain ⟨h3, h4⟩ := h2
+    rw [mem_sortBy] at h3
+    simp only [Bool.and_eq_true, Bool.not_eq_true', bne_iff_ne, ne_eq] at h4
+    refine ⟨h3, ?_, h4.2⟩
+    intro hr
+    obtain ⟨_, σ', hσ⟩ := (mem_result_iff _ _).1 hr
+    have : st.pos.any (fun x => x.1 == row.1) = true := by
+      rw [List.any_eq_true]; exact ⟨_, hσ, by simp⟩
+    rw [this] at h4
+    exact absurd h4.1 (by simp)
+
+/-! ### (a) S3 session timeout: soundness of the stacks and completeness are lost -/
+
+/-- 1 -> 2 -> 3 -> 4, every session can return to 1; the ECU falls back to the default session after 1 request that
+    is not TesterPresent -/
+def chainEcu : Ecu :=
+  { g := fun p u => if u = 1 ∨ (p = 1 ∧ u = 2) ∨ (p = 2 ∧ u = 3) ∨ (p = 1 ∧ u = 5) then .pos else .nrc NRC_SFNS
+    rst := fun _ => .pos }
+
+def s3Link : Link (Sess × Nat) := linkOf (s3Oracle chainEcu { maxReqs := 1 })
+
+/-- **Witness: completeness fails under a session timeout.**  Session 3 is reachable within depth 3 (1 -> 2 -> 3), the
+    scan does not give up, and does not report it: by the time `10 03` is probed the ECU has fallen back to session 1. -/
+theorem timeout_completeness_fails :
+    ReachWithin chainEcu.g [] 3 3 ∧ (scanS { depth := 3 } s3Link (1, 0)).aborted = false ∧
+      3 ∉ result ((scanS { depth := 3 } s3Link (1, 0)).toSt s3Link) := by
+  refine ⟨⟨2, by omega, by omega, ?_⟩, by decide +kernel, by decide +kernel⟩
+  have h1 : ReachIn chainEcu.g [] 1 2 :=
+    .step (p := 1) (u := 2) .zero (by simp [chainEcu]) (by simp) (by simp [sessions])
+  exact .step (p := 2) (u := 3) h1 (by simp [chainEcu]) (by simp) (by simp [sessions])
+
+/-- **Witness: the reported stack can be wrong under a session timeout.**  Session 5 is reported "via stack 1 -> 2"
+    although `10 05` is refused in session 2: the ECU was back in session 1 when it accepted it. -/
+theorem timeout_stack_unsound :
+    (5, [1, 2]) ∈ (scanS { depth := 3 } s3Link (1, 0)).pos ∧ chainEcu.g 2 5 ≠ .pos := by
+  refine ⟨by decide +kernel, by decide⟩
 
 end Gallia.C09
